@@ -189,6 +189,7 @@ int main(int argc, char **argv)
                 else if (!strcmp(a, "--str-full")) W.str_full = atoi(ARG());
                 else if (!strcmp(a, "--refusal-probe")) W.refusal_probe = atoi(ARG());
                 else if (!strcmp(a, "--stale-usize")) W.stale_usize = atoi(ARG());
+                else if (!strcmp(a, "--io-trigger")) W.io_trigger = atoi(ARG());
                 else if (!strcmp(a, "--alias-group")) W.alias_group = atoi(ARG());
                 else if (!strcmp(a, "--interfere")) W.interfere = atoi(ARG());
                 else if (!strcmp(a, "--max-states")) o.max_states = strtoull(ARG(), NULL, 10);
